@@ -7,18 +7,18 @@ property talks about is exercised densely.
 import random, copy
 
 OPT_KEYS = ["version", "region", "compiler", "modding", "k1"]
-OPT_VALS = ["us", "jp", "eu", "gcc", "kmc", "true", "x/y", ""]
+OPT_VALS = ["us", "jp", "eu", "gcc", "kmc", "true", "x/y", "", "{region}_v"]
 SEG_NAMES = ["boot", "main", "code", "ovl1", "ovl2", "battle", "world", "lib", "seg_a", "Seg9", "_x", "assets"]
 ALLOC_POOL = [".text", ".data", ".rodata", ".sdata", ".rdata", ".late_rodata", ".ctors", "mytext", ".init", "rodata",
               "text", ".data.rel"]
-NOLOAD_POOL = [".sbss", ".scommon", ".bss", "COMMON", ".noload2", "mybss"]
+NOLOAD_POOL = [".sbss", ".scommon", ".bss", "COMMON", ".noload2", "mybss", ".data.noinit"]
 SUB_POOL = [".rdata", ".late_rodata", ".text.hot", ".data.rel", ".sdata2", ".bss.extra", "sub1", "sub2"]
 DIRS = ["src", "build", "lib", "asm", "a.b", "x", "{version}", "{region}", "v_{version}", "{version}_{region}",
-        "pre{compiler}post", "{version}{region}", "..", ".", "m\u00fasica", "\u00f1_{version}", "{version}_\u00e9t\u00e9"]
+        "pre{compiler}post", "{version}{region}", "..", ".", "gen}_{tmp", "m\u00fasica", "\u00f1_{version}", "{version}_\u00e9t\u00e9"]
 FILES = ["main.o", "boot.o", "util.o", "libc.a", "libgcc.a", "data.bin", "noext", "f{version}.o",
          "{compiler}.a", "x.y.o", "entry.o", "dma.o", "rsp.o"]
 SYMS = ["sym_a", "entrypoint", "_start", "Vine1Base", "gFoo", "D_80000000", "bar"]
-CLASS_NAMES = ["clsA", "clsB", "clsC", "overlay", "heap"]
+CLASS_NAMES = ["clsA", "clsB", "clsC", "overlay", "heap", "overlay_common"]
 HEADER_TYPES = ["char", "u8", "unsigned int"]
 
 
@@ -219,6 +219,8 @@ class Gen:
                 kids = [x for x in SUB_POOL if x not in members and x not in sg][:3]
                 if kids and parent not in sg:
                     sg[parent] = self.subset(kids, 1, 2)
+            if self.r.random() < 0.08:
+                sg = {}                      # an explicitly empty map (shields from the global one)
             rec["sections_subgroups"] = sg
 
     def settings(self):
@@ -245,9 +247,9 @@ class Gen:
         if self.chance("tail"):
             if self.r.random() < 0.5:
                 st["sections_allowlist"] = self.subset([".shstrtab", ".mdebug", ".note", "mysec", ".ctors", ".init", ".reginfo",
-                                                        ".got", ".bss"], 0, 3)
+                                                        ".got", ".bss", ".mdebug.abi32", ".symtab_shndx"], 0, 3)
             if self.r.random() < 0.5:
-                st["sections_allowlist_extra"] = self.subset([".symtab", ".strtab", ".comment"], 0, 2)
+                st["sections_allowlist_extra"] = self.subset([".symtab", ".strtab", ".comment", ".mdebug", ".note"], 0, 2)
             if self.r.random() < 0.5:
                 st["sections_denylist"] = self.subset([".reginfo", ".got", ".pdr", ".eh_frame"], 0, 3)
             if self.r.random() < 0.5:
